@@ -123,3 +123,49 @@ void h_drive(void) {
   __CPROVER_assert(0, "SENTINEL reachable");
 }
 #endif
+#ifdef DRIVE_cbthrow
+/* audit E/D6 - clause re-derived from the property: "a completion registered through callback_await runs exactly once per awaited operation - with the
+ * operation's value, or its exception or broken-promise state".  The statement does not exempt a completion that fails while it handles the outcome:
+ * its own failure is not an outcome of the awaited operation and must not be reported to it as one. */
+void h_drive(void) {
+  int in_v = nondet_unsigned(), in_e = nondet_unsigned(), in_outcome = nondet_unsigned(), in_throws = nondet_bool(); __CPROVER_assume(in_outcome <= 2);
+  int v = in_v, e = in_e, outcome = in_outcome, throws = in_throws;
+  unsigned a0 = gh_allocs, f0 = gh_frees;
+  c18_drive_cbthrow(outcome, DRIVE_BEFORE, throws, v, e);
+  __CPROVER_assert(cv_exc_pending == 0, "no exception escapes");
+  __CPROVER_assert(REC->calls == 1, "C18-D6: the callback runs exactly once per awaited operation, also when it throws while handling the outcome");
+  __CPROVER_assert(DRIVE_BEFORE ? REC->calls_at_return >= 1 : REC->calls_at_return == 0, "already resolved at registration: the callback has run when callback_await returns; otherwise it has not run yet");
+  OUTCOME_CHECKS(outcome, v, e);
+  __CPROVER_assert(gh_allocs - a0 == 1 && gh_frees - f0 == 1, "exactly one heap block (the coroutine frame) is allocated and it is released exactly once, also when the callback throws");
+  __CPROVER_assert(0, "SENTINEL reachable");
+}
+#endif
+#ifdef DRIVE_cbctor
+/* audit E/D7 - "a completion registered through callback_await runs exactly once per awaited operation - with the operation's value, or its exception ...":
+ * an operation whose start fails has failed; its completion must learn that (exception state), unless the registering caller is told instead (then nothing
+ * was registered).  Never neither (the failure vanishes), never both. */
+void h_drive(void) {
+  int in_e = nondet_unsigned(); int e = in_e;
+  unsigned a0 = gh_allocs, f0 = gh_frees;
+  c18_drive_cbctor(e);
+  __CPROVER_assert(cv_exc_pending == 0, "no exception escapes the drive");
+  __CPROVER_assert(REC->calls + *G_CALLER_SAW == 1, "C18-D7: the operation could not be started: the completion runs exactly once (exception state) or the registering caller sees the exception - not neither, not both");
+  if (REC->calls == 1) __CPROVER_assert(REC->has_value == 0 && REC->exc_error == 1 && REC->exc_code == e && REC->exc_canceled + REC->exc_other == 0, "the completion sees exactly the exception that prevented the start");
+  if (*G_CALLER_SAW == 1) __CPROVER_assert(*G_CALLER_CODE == e, "the caller sees exactly the exception that prevented the start");
+  __CPROVER_assert(gh_allocs - a0 == 1 && gh_frees - f0 == 1, "exactly one heap block (the coroutine frame) is allocated and it is released exactly once");
+  __CPROVER_assert(0, "SENTINEL reachable");
+}
+#endif
+#ifdef DRIVE_discard_fail
+/* audit E/W5 - discard(fn) with a factory that throws: there is no awaited operation, the registering caller must see the exception, and the helper block is
+ * released exactly once. */
+void h_drive(void) {
+  int in_e = nondet_unsigned(); int e = in_e;
+  unsigned a0 = gh_allocs, f0 = gh_frees;
+  c18_drive_discard_fail(e);
+  __CPROVER_assert(cv_exc_pending == 0 && gh_pr_calls == 1, "no exception escapes the drive");
+  __CPROVER_assert(*G_CALLER_SAW == 1 && *G_CALLER_CODE == e, "discard: a factory that throws is reported to the registering caller with exactly its exception");
+  __CPROVER_assert(gh_allocs - a0 == gh_frees - f0 && gh_allocs - a0 <= 1, "discard: the helper block (if one was allocated) is released exactly once");
+  __CPROVER_assert(0, "SENTINEL reachable");
+}
+#endif
